@@ -187,7 +187,8 @@ def gen_cache_trace(seed, faults, kinds=("wb", "wt")):
     cfg = gen_config(r, kinds)
     r = R.stream(seed, "ops")
     ctx = _Ctx(r, cfg, faults)
-    n = r.choice([r.randint(1, 12), r.randint(5, 40), r.randint(20, 80)])
+    dm = R.deep(r)
+    n = r.choice([r.randint(1, 12), r.randint(5, 40), r.randint(20, 80)]) * dm
     p_write = r.choice([0.2, 0.5, 0.5, 0.8])
     p_fault = r.choice([0.05, 0.1, 0.2]) if faults else 0.0
     p_unc = r.choice([0.0, 0.1, 0.3])
@@ -211,7 +212,7 @@ def gen_cache_trace(seed, faults, kinds=("wb", "wt")):
                     ops.append(["PRE", w, ctx.aligned_addr(w), ctx.value(w)])
         else:
             ops.append(_rw(ctx, p_write, p_fault, p_unc))
-    return {"config": cfg, "faults": bool(faults), "decoy": r.random() < 0.25, "ops": ops[:100]}
+    return {"config": cfg, "faults": bool(faults), "decoy": r.random() < 0.25, "ops": ops[: 100 * dm]}
 
 
 # ---------------------------------------------------------------------------
